@@ -11,7 +11,7 @@ LEVEL = "exploration"
 TECHNIQUE = "runtime monitor: handler/scheduling/clock-write history of the real simulator vs reference DEVS interpreter on generated model programs"
 RULE = ("seeded random model programs (5-60 events; trees of handlers scheduling now / rel / abs / prebuilt events with "
         "priorities 1-10, exact time ties on a few hot instants, zero and -0.0 delays, events at and beyond the horizon, "
-        "cancel of pending / executed / own / not-yet-created events, illegal requests: negative, past, NaN, None, str) "
+        "first events from construct_model and (30%) from a method registered with add_initial_method, cancel of pending / executed / own / not-yet-created events, illegal requests: negative, past, NaN, None, str) "
         "on the float, int and Duration (mixed display units) clocks; non-trivial = program with >=1 time tie with "
         "different priorities, >=1 tie on (time, priority), >=1 cancel of a pending event and >=1 refused request; "
         "distinct = canonical program hash")
@@ -118,7 +118,7 @@ def run_case(case, ctx):
 
 
 def _action(prog, parent, idx):
-    acts = prog["init"] if parent is None else prog["handlers"].get(parent, [])
+    acts = prog["init"] if parent is None else prog.get("initial", []) if parent == "@initial" else prog["handlers"].get(parent, [])
     return acts[idx] if idx < len(acts) else None
 
 
